@@ -13,6 +13,7 @@ import itertools
 from .. import AnalysisError, tables
 from ..callgraph import callgraph
 from ..fsinterp import ABSENT, Interp, Path, State, UNKNOWN, handler_names, run_writer, PARTIAL_LOAD_ERRORS
+from ..canon import canon
 from ..pm import dotted, src
 from ..q import FA, call_name, walk_no_nested
 from ..resolve import resolver
@@ -209,6 +210,28 @@ def run(ctx):
             ctx.ob("R-FS", "C11.5", f_, "the checkpoint target (resume_file) is not set from the name of the file a sampler was resumed from (which may be the `.old` backup)", not bad_, f"`{src(s_)[:70]}`" + (": after a resume through the `.old` fallback every later checkpoint goes to F.old / F.old.old, names the reader never tries" if bad_ else ""), node=s_)
     ctx.require(n_rf >= 1, "no store to resume_file found (configure_output expected)")
     ctx.floor("C11.5", 2)
+
+    # ---- C11.7 the checkpoint names the weights the flow has *now* ---------------------------------------------------
+    # FlowProposal.resume loads `weights_file` from the pickle; FlowProposal never sets that attribute itself, it is the
+    # key __getstate__ adds.  With per-training weight files (proposal_plots / save_training_data) a stale path pairs the
+    # newest sampler state with the flow of an earlier training - a torn checkpoint that raises nothing.  So the value
+    # pickled under that key is the flow's current weights file; a previously stored path may only be a fallback for it.
+    gsf = ctx.fn(tables.FP + ".__getstate__")
+    from ..summ import summarise as _summ117
+
+    n117 = 0
+    LIVE117 = ("getattr(state.get('flow'), 'weights_file', None)", "getattr(self.flow, 'weights_file', None)", "self.flow.weights_file", "state['flow'].weights_file", "getattr(self.__dict__.copy().get('flow'), 'weights_file', None)")
+    for pa_ in [x_ for x_ in _summ117(gsf.node) if x_.end == "return"]:
+        for eff in pa_.effects:
+            if eff[0] == "store" and isinstance(eff[1], ast.Subscript) and isinstance(eff[1].slice, ast.Constant) and eff[1].slice.value == "weights_file":
+                n117 += 1
+                v_ = eff[2]
+                first_ = v_.values[0] if isinstance(v_, ast.BoolOp) and isinstance(v_.op, ast.Or) else (v_.body if isinstance(v_, ast.IfExp) else v_)
+                _n117 = lambda e_: canon(e_).replace("self.__dict__.copy()", "state").replace("self.__dict__", "state")
+                ok117 = _n117(first_) in LIVE117 or _n117(v_) in LIVE117
+                ctx.ob("R-PICKLE", "C11.7", gsf, "the weights path written into the proposal's pickle is the flow's current weights file (a stored path at most as a fallback)", ok117, f"`{src(v_)[:110]}`")
+    ctx.require(n117 >= 1, "FlowProposal.__getstate__: no store of state['weights_file'] found")
+    ctx.floor("C11.7", 1)
 
     # ---- C11.6 a weights loader is handed a path, never None --------------------------------------------------------
     # the restore-the-backup logic of FlowProposal.resume catches the exceptions a torn file raises (RuntimeError, OSError,
